@@ -202,7 +202,10 @@ pub fn run_state_case<T: Sc>(out: Option<&mut Out>, c: &StateCase<T>, fault: Opt
 pub fn random_state_case<T: Sc>(rng: &mut Rng, thorough: bool, idx: usize) -> StateCase<T> {
     // one case in eight has one LARGE dimension (size-threshold sub-streams): many right-hand sides,
     // many samples, or many basis functions / parameters
-    let big = if idx % 8 == 5 { 1 + (idx / 8) % 3 } else { 0 };
+    let big = if idx % 8 == 5 { 1 + (idx / 8) % 4 } else { 0 };
+    if big == 4 {
+        return many_functions_case::<T>(rng, thorough, idx);
+    }
     let mut o = GenOpts {
         max_m: if thorough { 6 } else { 4 },
         max_p: if thorough { 5 } else { 3 },
@@ -274,7 +277,53 @@ pub fn random_state_case<T: Sc>(rng: &mut Rng, thorough: bool, idx: usize) -> St
         eps,
         init,
         history,
-        origin: ["random", "bigS", "bigN", "bigMP"][big],
+        origin: ["random", "bigS", "bigN", "bigMP", "bigM"][big],
+    }
+}
+
+/// MANY basis functions and parameters (size thresholds in M and P: chunked / parallel column loops,
+/// bit masks): a comb of M well separated Lorentz peaks, each with its own width parameter or pairs of
+/// neighbours sharing one; well conditioned whatever M is
+pub fn many_functions_case<T: Sc>(rng: &mut Rng, thorough: bool, idx: usize) -> StateCase<T> {
+    let sizes: &[usize] = if thorough { &[17, 33, 40, 65, 70] } else { &[17, 33, 40] };
+    let m = *rng.pick(sizes);
+    let shared = rng.chance(0.4);
+    let p = if shared { (m + 1) / 2 } else { m };
+    let mut fns: Vec<FnSpec> = (0..m)
+        .map(|j| FnSpec { kind: Kind::LorentzAt(j as u16), params: vec![if shared { j / 2 } else { j }] })
+        .collect();
+    if rng.chance(0.3) {
+        fns.push(FnSpec { kind: Kind::One, params: vec![] });
+    }
+    // shuffle the model's parameter order
+    let mut perm: Vec<usize> = (0..p).collect();
+    rng.shuffle(&mut perm);
+    for f in fns.iter_mut() {
+        for q in f.params.iter_mut() {
+            *q = perm[*q];
+        }
+    }
+    let n = 2 * m + rng.range(1, 6);
+    let x: Vec<f64> = (0..n).map(|i| ((4.0 * m as f64) * (i as f64) / (n - 1) as f64 * 64.0).round() / 64.0).collect();
+    let recipe = Recipe { names: (0..p).map(|i| format!("w{}", i)).collect(), fns, x };
+    let flavour = *rng.pick(&[Flavour::New, Flavour::Mrhs, Flavour::NewPar, Flavour::MrhsPar, Flavour::NewPar]);
+    let s = if flavour.is_mrhs() { rng.range(1, 2) } else { 1 };
+    let y = random_data::<T>(rng, &recipe, s, idx % 10 < 2);
+    let wkind = WKINDS[idx % WKINDS.len()];
+    let w = random_weights(rng, wkind, recipe.n(), recipe.m()).map(|w| w.iter().map(|v| T::of(*v)).collect());
+    let init: Vec<T> = random_alpha(rng, p).iter().map(|v| T::of(*v)).collect();
+    let history = vec![random_alpha(rng, p).iter().map(|v| T::of(*v)).collect()];
+    StateCase {
+        recipe,
+        built: idx % 16 < 8,
+        flavour,
+        y,
+        w,
+        wkind: wkind.name(),
+        eps: None,
+        init,
+        history,
+        origin: "bigM",
     }
 }
 
